@@ -148,10 +148,10 @@ VIEWS[BIN + ":AndNotMatcher"] = v_andnot()
 VIEWS[BIN + ":AndMaybeMatcher"] = v_andmaybe()
 
 
-def mk(cls, **extra):
+def mk(cls, strict_skip=False, **extra):
     def setup(I, **kw):
-        a = Cursor(I, "a")
-        b = Cursor(I, "b")
+        a = Cursor(I, "a", strict_skip=strict_skip)
+        b = Cursor(I, "b", strict_skip=strict_skip)
         f = {"a": a, "b": b}
         for k, v in extra.items():
             f[k] = v(I) if callable(v) else v
@@ -159,8 +159,8 @@ def mk(cls, **extra):
     return setup
 
 
-def mk_args(cls, names, **extra):
-    base = mk(cls, **extra)
+def mk_args(cls, names, strict_skip=False, **extra):
+    base = mk(cls, strict_skip=strict_skip, **extra)
 
     def setup(I, **kw):
         env = base(I)
@@ -400,3 +400,76 @@ def register(R, tier="quick"):
                "forall(lambda s: score_at(result, s) == score_at(self, s))"],
       canaries=[Canary("shares-child", "self.__class__(self.a.copy(), self.b.copy())", "self.__class__(self.a, self.b.copy())")],
       note="copy() is an equal, independent cursor")
+
+    # ================================================================ restricted twins of the block-range finding
+    # Hypothesis H ("uniform blocks"): a child's block_quality() bounds ALL of its entries (true when the posting
+    # list is a single block, or all blocks share the bound).  Under H the skip clause must hold, so a change
+    # that breaks skip_to_quality beyond the recorded finding is still caught.
+    def global_bq(I, c):
+        s, t = z3.Int(I.fresh_name("s")), z3.Int(I.fresh_name("t"))
+        return z3.ForAll([s, t], z3.Implies(c.S(t), c.sc(t) <= c.bq(s)))
+    from pyvc.values import SpecFn as _SF
+    GB = {"global_bq": _SF("global_bq", global_bq)}
+    GB.update(SF)
+    SKQ_CLAUSE = ("forall(lambda s: implies(mem(self, s) and s >= old(pos(self)) and s < pos(self), "
+                  "score_at(self, s) <= minquality))")
+    BOUNDS = ["forall(lambda t: implies(mem(a, t), score_at(a, t) <= aq))",
+              "forall(lambda t: implies(mem(b, t), score_at(b, t) <= bq))"]
+    def below(I, c, d):
+        """every block bound of c is below every block bound of d"""
+        s, t = z3.Int(I.fresh_name("s")), z3.Int(I.fresh_name("t"))
+        return z3.ForAll([s, t], c.bq(s) < d.bq(t))
+    GB["below"] = _SF("below", below)
+    for tag, glob, low, bound, can in (
+            ("uniform-b", "self.b", ("self.a", "self.b"), BOUNDS[1],
+             Canary("threshold-uses-own-quality", "sk = a.skip_to_quality(minquality - bq)", "sk = a.skip_to_quality(minquality - aq)")),
+            ("uniform-a", "self.a", ("self.b", "self.a"), BOUNDS[0],
+             Canary("threshold-uses-own-quality", "sk = b.skip_to_quality(minquality - aq)", "sk = b.skip_to_quality(minquality - bq)"))):
+        C(BIN + ":IntersectionMatcher.skip_to_quality", label=BIN + ":IntersectionMatcher.skip_to_quality#" + tag,
+          props=PROPS_Q, spec_funcs=GB, setup=mk_args("IntersectionMatcher", {"minquality": "real"}, strict_skip=True),
+          assumptions=["twin hypothesis: children are leaf-like (skip_to_quality returns 0 only if it did not move)"],
+          requires=SKQ_REQ + ["minquality >= 0", "global_bq(%s)" % glob, "below(%s, %s)" % low],
+          ensures=["minv(self)", "wfpos(self)", "pos(self) >= old(pos(self))", SKQ_CLAUSE],
+          modifies=["self.a", "self.b"], returns="int",
+          loops={0: LoopSpec(inv=["minv(self)", "a is self.a", "b is self.b", "pos(self) >= old(pos(self))",
+                                  "pos(a) >= old(pos(self.a))", "pos(b) >= old(pos(self.b))", SKQ_CLAUSE, bound,
+                                  "exists(lambda p: aq == a.bq(p))", "exists(lambda p: bq == b.bq(p))",
+                                  "implies(pos(a) < INF, score_at(a, pos(a)) <= aq)",
+                                  "implies(pos(b) < INF, score_at(b, pos(b)) <= bq)"])},
+          canaries=[can, Canary("no-resync", "if a.id() != b.id():\n            self._find_next()", "if False:\n            self._find_next()")],
+          note="restriction of the known block-range finding to the region where it cannot occur: one child has a "
+               "uniform block bound and the other child's bounds all lie below it, so only the sound branch runs")
+
+    # entries one child has passed but the composite has not reported yet have a TRUE composite score <= q
+    PASSED_LOW = ("forall(lambda s: implies(mem(self, s) and s >= pos(self) and "
+                  "((mem(self.a, s) and s < pos(self.a)) or (mem(self.b, s) and s < pos(self.b))), "
+                  "score_at(self, s) <= minquality))")
+    for cls, extra in (("UnionMatcher", {"_id": idopt}), ("AndMaybeMatcher", {})):
+        for tag, glob, low, bound, can in (
+                ("uniform-b", "self.b", ("self.a", "self.b"), BOUNDS[1],
+                 Canary("threshold-uses-own-quality", "skipped += a.skip_to_quality(minquality - bq)",
+                        "skipped += a.skip_to_quality(minquality - aq)")),
+                ("uniform-a", "self.a", ("self.b", "self.a"), BOUNDS[0],
+                 Canary("threshold-uses-own-quality", "skipped += b.skip_to_quality(minquality - aq)",
+                        "skipped += b.skip_to_quality(minquality - bq)"))):
+            key = BIN + ":" + cls + ".skip_to_quality"
+            C(key, label=key + "#" + tag, props=PROPS_Q, spec_funcs=GB,
+              setup=mk_args(cls, {"minquality": "real"}, strict_skip=True, **extra),
+              assumptions=["twin hypothesis: children are leaf-like (skip_to_quality returns 0 only if it did not move)"],
+              requires=SKQ_REQ + ["minquality >= 0", "global_bq(%s)" % glob, "below(%s, %s)" % low],
+              ensures=["minv(self.a)", "minv(self.b)", "pos(self) >= old(pos(self))", SKQ_CLAUSE, PASSED_LOW],
+              modifies=["self.a", "self.b"], returns="int",
+              loops={0: LoopSpec(inv=["minv(self.a)", "minv(self.b)", "a is self.a", "b is self.b",
+                                      "pos(self) >= old(pos(self))", "pos(a) >= old(pos(self.a))",
+                                      "pos(b) >= old(pos(self.b))", SKQ_CLAUSE, bound,
+                                      "exists(lambda p: aq == a.bq(p))", "exists(lambda p: bq == b.bq(p))",
+                                      "implies(pos(a) < INF, score_at(a, pos(a)) <= aq)",
+                                      "implies(pos(b) < INF, score_at(b, pos(b)) <= bq)"]
+                                 + (["is_none(self._id)", "pos(%s) == old(pos(%s))" % (glob, glob),
+                                     "forall(lambda s: implies(mem(%s, s) and s >= old(pos(self)), s >= pos(%s)))" % (glob, glob)]
+                                    if cls == "UnionMatcher" else
+                                    [])
+                                 + [PASSED_LOW])},
+              canaries=[can],
+              note="restriction of the known block-range finding (one child uniform, the other below it): the skip "
+                   "clause itself must hold (after the skip the composite is only q-faithful, so minv(self) is not claimed)")
